@@ -39,3 +39,39 @@ pub fn probe_arr_str() {
     for b in s.bytes() { if b == b'c' { k += 1; } }
     assert!(k == 1);
 }
+
+#[cfg(kani)]
+#[kani::proof]
+#[kani::unwind(8)]
+#[kani::stub(core::slice::memchr::memchr, crate::common::stub_memchr_16)]
+pub fn probe_split_empty_tail() {
+    let s = "{a\n b}";
+    let t = &s[6..];
+    let rc = t.split('\n').next().map(|l| l.len()).unwrap_or(t.len());
+    let n = t.split('\n').count();
+    assert!(rc == 0 && n == 1);
+}
+#[cfg(kani)]
+#[kani::proof]
+#[kani::unwind(8)]
+#[kani::stub(core::slice::memchr::memchr, crate::common::stub_memchr_16)]
+pub fn probe_split_tail1() {
+    let s = "{a\n b}";
+    let t = &s[5..];
+    let rc = t.split('\n').next().map(|l| l.len()).unwrap_or(t.len());
+    let n = t.split('\n').count();
+    assert!(rc == 1 && n == 1);
+}
+
+#[cfg(kani)]
+#[kani::proof]
+#[kani::unwind(8)]
+#[kani::stub(core::slice::memchr::memchr, crate::common::stub_memchr_16)]
+pub fn probe_split_empty_tail_padded() {
+    let s0 = "{a\n b}X";
+    let s = &s0[..6];
+    let t = &s[6..];
+    let rc = t.split('\n').next().map(|l| l.len()).unwrap_or(t.len());
+    let n = t.split('\n').count();
+    assert!(rc == 0 && n == 1);
+}
